@@ -13,6 +13,7 @@ CFG = dict(
         "Inst.gen_pick_quorum: try_advance_commit_index picks a position a quorum of the match values reach",
         "Inst.gen_commit_current_term: try_advance_commit_index commits only an entry of the current term",
         "Inst.gen_entries_with_known_prev: get_entries_for_follower sends entries only with a prev entry still in the log",
+        "Inst.gen_finalize_within_commit: finalize_to accepts only heights the node has committed",
     ],
     crate="nvh_c01",
     header=H + "From NV.C01 Require Import Model Run.\nOpen Scope N_scope.",
